@@ -130,7 +130,9 @@ def run(chk):
         np.random.seed((seed0 + k) % (2 ** 32))
         k += 1
         if cont == "frame":
-            df = pd.DataFrame({"CDR3B": xs, "n": list(range(N))}, index=range(3, 3 + N))
+            idx_kind = rng.choice(["unique", "repeated", "string"])
+            index = list(range(3, 3 + N)) if idx_kind == "unique" else ([i // 2 for i in range(N)] if idx_kind == "repeated" else [f"r{i % 3}" for i in range(N)])
+            df = pd.DataFrame({"CDR3B": xs, "n": list(range(N))}, index=index)
             before = df.copy(deep=True)
             real = core.call_real(lambda: ds.downsample(df, m))
             chk.case(nontrivial_key=("down", cont, tuple(xs), m))
@@ -143,10 +145,12 @@ def run(chk):
             if m is None or N <= m:
                 ok = out is df or out.equals(df)
             else:
-                ok = len(out) == m and out.index.is_unique and set(out.index) <= set(df.index) and all(out.loc[i].equals(df.loc[i]) for i in out.index)
+                # a subset of ROWS: exactly m rows, each an input row, no input row used twice (column n identifies the row)
+                ok = len(out) == m and out["n"].is_unique and set(out["n"]) <= set(df["n"]) and \
+                    all(list(out.iloc[r]) == list(df[df["n"] == out.iloc[r]["n"]].iloc[0]) and out.index[r] == df.index[int(out.iloc[r]["n"])] for r in range(len(out)))
             if not ok:
                 chk.violation("C17|downsample|frame|contract", f"downsample(table of {N}, {m}) is not a {m}-row subset / identity",
-                              {"xs": xs, "m": m, "out_index": [int(i) for i in out.index]})
+                              {"xs": xs, "m": m, "out_index": [str(i) for i in out.index]})
             continue
         obj = xs if cont == "list" else (np.array(xs, dtype=object) if cont == "array" else pd.Series(xs, dtype=object))
         real = core.call_real(lambda: ds.downsample(obj, m))
